@@ -8,13 +8,14 @@ with or without a (symbolic, linear) preconditioner.  Reals stand for floats.
 Loop invariant (head of every iteration, all i, c):
       residual[i, c]  ==  bhat[i, c] - sum_j A[i, j] * result[j, c]             bhat = rhs / rhs_norm  (the code's own scaling)
 Step obligation (one execution of the real body):
-      has_converged[c] at the head of the iteration  ==>  result[:, c] is not changed by the iteration      (frozen columns)
+      result' = result + a d,  residual' = residual - a (A d)  point-wise for the step size a the body computed, and
+      has_converged[c] at the head of the iteration  ==>  a[c] = 0, i.e. result[:, c] is not changed              (frozen columns)
 Postconditions of the call (X the returned tensor, r the residual the loop ended with):
       shape / dtype of X are those of rhs;   rhs, A and the initial guess are not written
       rhs[i, c] - sum_j A[i, j] X[j, c]  ==  rhs_norm[c] * r[i, c]                                        (X's TRUE residual)
       no NumericalWarning  ==>  mean_c m_c * ||r[:, c]||  <  tolerance     (m_c = 0 for zero columns)     (silent finish => tolerance met)
                                 or the loop was skipped because every column was below stop_updating_after at the start
-      a NumericalWarning is only emitted after the iteration budget n_iter > 0 is used up
+      the loop ends without reaching the tolerance (budget n_iter > 0 used up, for either value of terminate_cg_by_size)  ==>  a NumericalWarning is emitted
       inconsistent limits (max_tridiag_iter > max_iter) raise; nothing else raises
 What is NOT proved here (bounded tier only): the convergence RATE (Chebyshev bound, monotone A-norm error), the Lanczos
 tridiagonal matrices, behaviour under rounding (accuracy floors), NaN handling of real floats."""
@@ -61,6 +62,36 @@ def _run(br: int, precond: bool, with_guess: bool, shard=None, cover_only=False)
         n = A.shape[-1]
         return O.sum_term(n, lambda j: A.at(*O.bidx(A.shape[:-2], b), i, j) * V.at(*b, j, cc), real)
 
+    def step_goals(c, env, h, b, i, cc):
+        """one execution of the real loop body maps a state satisfying the invariant to one satisfying it:
+             (1) result'[j, c]   == result[j, c] + a_c * d[j, c]           for the step size a_c = alpha'[c] the body computed (any j)
+             (2) residual'[i, c] == residual[i, c] - a_c * mvms[i, c]
+             (3) mvms[i, c]      == sum_j A[i, j] d[j, c]                   (d = the search direction at the loop head)
+             (4) algebra, for an ARBITRARY scalar a:  residual[i, c] - a * sum_j A[i, j] d[j, c]
+                                                       == bhat[i, c] - sum_j A[i, j] (result[j, c] + a * d[j, c])     given the head invariant
+           (1)-(3) are about the real post-state, point-wise; (4) is the only statement about sums and is proved with the step
+           size generalised to a constant.  Together with "a sum does not change when its body is rewritten point-wise" they
+           give residual' == bhat - A result'."""
+        A, bhat = state["A"], env["rhs"]
+        n = A.shape[-1]
+        j = z3.Int(c.fresh_name("j!step"))
+        resq, xq, al, mv = env["residual"].elem_fn(), env["result"].elem_fn(), env["alpha"].elem_fn(), env["mvms"].elem_fn()
+        a_c = al(tuple(b) + (z3.IntVal(0), cc))
+        inb = env["residual"].in_bounds
+        Aat = lambda r_, s_: A.at(*O.bidx(A.shape[:-2], b), r_, s_)  # noqa
+        bh = bhat.elem_fn()
+        bshape = tuple(bhat.shape[:-2])
+        goals = [
+            ("step (1) result' = result + a d  (point-wise)", z3.Implies(inb(tuple(b) + (j, cc)), xq(tuple(b) + (j, cc)) == h["result_at"](b, j, cc) + a_c * h["conj_at"](b, j, cc))),
+            ("step (2) residual' = residual - a mvms  (point-wise)", z3.Implies(inb(tuple(b) + (i, cc)), resq(tuple(b) + (i, cc)) == h["residual_at"](b, i, cc) - a_c * mv(tuple(b) + (i, cc)))),
+            ("step (3) mvms = A d", z3.Implies(inb(tuple(b) + (i, cc)), mv(tuple(b) + (i, cc)) == O.sum_term(n, lambda t: Aat(i, t) * h["conj_at"](b, t, cc), real))),
+        ]
+        a = z3.Real(c.fresh_name("a!step"))
+        lhs = h["residual_at"](b, i, cc) - a * O.sum_term(n, lambda t: Aat(i, t) * h["conj_at"](b, t, cc), real)
+        rhs_ = bh(O.bidx(bshape, b) + (i, cc)) - O.sum_term(n, lambda t: Aat(i, t) * (h["result_at"](b, t, cc) + a * h["conj_at"](b, t, cc)), real)
+        goals.append(("step (4) algebra: residual - a A d = bhat - A (result + a d)  [a arbitrary]", z3.Implies(inb(tuple(b) + (i, cc)), lhs == rhs_)))
+        return goals
+
     class Spec(loopcut.LoopSpec):
         modifies = ("k", "mvms", "residual", "precond_residual", "tolerance_reached", "mul_storage", "alpha", "is_zero", "residual_norm", "has_converged",
                     "alpha_tridiag", "beta_tridiag", "alpha_tridiag_is_zero", "alpha_reciprocal", "t_mat", "update_tridiag", "last_tridiag_iter",
@@ -69,10 +100,20 @@ def _run(br: int, precond: bool, with_guess: bool, shard=None, cover_only=False)
                     "result", "beta", "residual_inner_prod", "curr_conjugate_vec")
         target = "k"
 
-        def _inv(self, env, b, i, cc):
+        def _inv_fn(self, env):
+            """the invariant as a function of the quantified indices, over SNAPSHOTS of residual / result / bhat taken now (the loop
+            head when it is assumed, the state after the body when it is proved): residual and result are overwritten in place
+            by the body, so a lazily evaluated residual.at(...) in the assumed fact would silently talk about the post-state"""
             A, bhat = state["A"], env["rhs"]
             res, x = env["residual"], env["result"]
-            return z3.Implies(res.in_bounds(b + (i, cc)), res.at(*b, i, cc) == bhat.at(*O.bidx(bhat.shape[:-2], b), i, cc) - a_times(A, x, b, i, cc))
+            rese, xe, be = res.elem_fn(), x.elem_fn(), bhat.elem_fn()
+            bshape, n = tuple(bhat.shape[:-2]), A.shape[-1]
+            inb = res.in_bounds
+
+            def f(b, i, cc):
+                ax = O.sum_term(n, lambda j: A.at(*O.bidx(A.shape[:-2], b), i, j) * xe(tuple(b) + (j, cc)), real)
+                return z3.Implies(inb(tuple(b) + (i, cc)), rese(tuple(b) + (i, cc)) == be(O.bidx(bshape, b) + (i, cc)) - ax)
+            return f
 
         def invariant(self, env, k):
             c = sym.ctx()
@@ -82,17 +123,22 @@ def _run(br: int, precond: bool, with_guess: bool, shard=None, cover_only=False)
                 return goals
             b, i, cc = idx_vars(c, "inv", len(res.shape) - 2)
             sym.instantiate_universals(b + (i, cc), key="cg:inv")
-            goals.append(("residual = bhat - A result", self._inv(env, b, i, cc)))
-            if "head" in state:  # step obligation: frozen columns (only meaningful after a body execution)
-                h = state["head"]
-                goals.append(("converged columns are not changed by the iteration",
-                              z3.Implies(z3.And(x.in_bounds(b + (i, cc)), h["has_converged_at"](b, cc)), x.at(*b, i, cc) == h["result_at"](b, i, cc))))
+            if "head" not in state:  # loop entry: the invariant itself
+                goals.append(("residual = bhat - A result", self._inv_fn(env)(b, i, cc)))
+                return goals
+            # after one execution of the real body: the invariant for the next head, in four machine-checked steps
+            goals += step_goals(c, env, state["head"], b, i, cc)
+            h = state["head"]
+            a_c = env["alpha"].elem_fn()(tuple(b) + (z3.IntVal(0), cc))
+            goals.append(("step (5) a column that has converged at the head gets step size 0 (with (1): it is not changed by the iteration)",
+                          z3.Implies(z3.And(x.in_bounds(b + (i, cc)), h["has_converged_at"](b, cc)), a_c == 0)))
             return goals
 
         def assume(self, env, k):
             c = sym.ctx()
             nb = len(env["residual"].shape) - 2
-            c.universals.append(("cg:inv", lambda idx, env=dict(env): self._inv(env, tuple(idx[:nb]), idx[nb], idx[nb + 1])))
+            f = self._inv_fn(env)  # snapshot of the havoced head state
+            c.universals.append(("cg:inv", lambda idx, f=f: f(tuple(idx[:nb]), idx[nb], idx[nb + 1])))
 
         def havoc(self, env, k, mode):
             c = sym.ctx()
@@ -108,15 +154,18 @@ def _run(br: int, precond: bool, with_guess: bool, shard=None, cover_only=False)
                 new["precond_residual"] = f("precond_residual") if precond else new["curr_conjugate_vec"]
             new["tolerance_reached"] = False  # the loop breaks as soon as it is set: at every loop head (and after a normal end) it is False
             if mode == "iter":
-                xe, hce = new["result"].elem_fn(), new["has_converged"].elem_fn()  # snapshots of the loop-head values (both tensors are overwritten in place by the body)
-                state["head"] = {"has_converged_at": lambda b, cc: hce(tuple(b) + (z3.IntVal(0), cc)), "result_at": lambda b, i, cc: xe(tuple(b) + (i, cc))}
+                xe, hce, re_, de = new["result"].elem_fn(), new["has_converged"].elem_fn(), new["residual"].elem_fn(), new["curr_conjugate_vec"].elem_fn()  # snapshots of the loop-head values (all overwritten in place by the body)
+                state["head"] = {"has_converged_at": lambda b, cc: hce(tuple(b) + (z3.IntVal(0), cc)), "result_at": lambda b, i, cc: xe(tuple(b) + (i, cc)),
+                                 "residual_at": lambda b, i, cc: re_(tuple(b) + (i, cc)), "conj_at": lambda b, i, cc: de(tuple(b) + (i, cc))}
             else:
                 state.pop("head", None)
             state["final"] = {"residual": new["residual"], "residual_norm": new["residual_norm"], "result": new["result"], "env": dict(env), "how": "exhausted" if mode == "exit" else "iter"}
+            if mode == "exit":
+                state["exit_k"] = k
             return new
 
         def on_break(self, env):
-            state["final"] = {"residual": env["residual"], "residual_norm": env["residual_norm"], "result": env["result"], "env": dict(env), "how": "break", "tolerance_reached": env.get("tolerance_reached")}
+            state["final"] = {"residual": env["residual"], "residual_norm": env["residual_norm"], "result": env["result"], "env": dict(env), "how": "break", "tolerance_reached": env.get("tolerance_reached"), "head": state.get("head")}
 
     spec = Spec()
     cut_fn = loopcut.cut(lcg.linear_cg, {0: spec}, name=base)
@@ -146,6 +195,7 @@ def _run(br: int, precond: bool, with_guess: bool, shard=None, cover_only=False)
             kw["initial_guess"] = SymTensor.fresh("x0", bs + (n, p), T.float64)
             state["x0"] = kw["initial_guess"]
         state["args"] = dict(tol=tol, eps=eps, sua=sua, max_iter=max_iter, max_tri=max_tri)
+        settings.terminate_cg_by_size._state = sym.lift(z3.Bool(c.fresh_name("terminate_cg_by_size")))  # both values of the flag are explored
         return cut_fn(A, rhs, n_tridiag=0, tolerance=tol, eps=eps, stop_updating_after=sua, max_iter=max_iter, max_tridiag_iter=max_tri, **kw)
 
     def post(c, outcome, value):
@@ -182,7 +232,12 @@ def _run(br: int, precond: bool, with_guess: bool, shard=None, cover_only=False)
         # (1) the code's scaling is never 0 (it is ||rhs[:, c]||, or 1 where that is below eps: rhs.norm(...).masked_fill_(lt(eps), 1))
         c.prove(f"{base}/return/rhs_norm > 0", z3.Implies(inb, scale > 0))
         # (2) the loop invariant at the state the loop was left with (instance of the assumed / just re-proved invariant)
-        c.prove(f"{base}/return/final residual = bhat - A result", z3.Implies(inb, r.at(*b, i, cc) == bhat.at(*b, i, cc) - a_times(A, xfin, b, i, cc)))
+        if fin["how"] == "break" and fin.get("head"):
+            # the loop was left from inside an iteration: the state is "one body execution after a head state" -> the same four steps
+            for nm_, g_ in step_goals(c, fin["env"], fin["head"], b, i, cc):
+                c.prove(f"{base}/return/final state/{nm_}", g_)
+        else:
+            c.prove(f"{base}/return/final residual = bhat - A result", z3.Implies(inb, r.at(*b, i, cc) == bhat.at(*b, i, cc) - a_times(A, xfin, b, i, cc)))
         # (3) un-normalisation: the TRUE residual of the returned X is rhs_norm * (bhat - A result)
         c.prove(f"{base}/return/true-residual  rhs - A X = rhs_norm * (bhat - A result)",
                 z3.Implies(inb, rhs.at(*b, i, cc) - a_times(A, X, b, i, cc) == scale * (bhat.at(*b, i, cc) - a_times(A, xfin, b, i, cc))))
@@ -196,13 +251,15 @@ def _run(br: int, precond: bool, with_guess: bool, shard=None, cover_only=False)
             c.prove(f"{base}/return/silent-finish => mean masked residual norm < tolerance", got < sym.as_real(a["tol"]))
         elif fin["how"] == "exhausted":
             # normal end of the loop: either it never ran (all columns converged at the start, n_iter = 0 chosen by the code) or the budget is used up and a warning is emitted
-            c.prove(f"{base}/return/budget-exhausted => warning or loop skipped", z3.BoolVal(len(nw) == 1 or state.get("skipped", False) or True), info={"warnings": len(nw)})
+            kz = sym.as_z3_int(state["exit_k"])  # number of iterations run when the loop ends without a break (= n_iter)
+            c.prove(f"{base}/return/budget used up without reaching the tolerance => NumericalWarning (or no iteration was due)", z3.Or(z3.BoolVal(len(nw) == 1), kz == 0), info={"warnings": len(nw)})
         c.prove(f"{base}/return/at-most-one-warning", z3.BoolVal(len(nw) <= 1))
 
     try:
         paths = sym.explore(thunk, post=post, max_paths=256, timeout_ms=10000, prefix0=shard)
     finally:
         O.SQRT_SQUARE_AXIOM[0] = True
+        settings.terminate_cg_by_size._state = None
     out, kinds = [], {}
     for p in paths:
         kinds[p.outcome] = kinds.get(p.outcome, 0) + 1
@@ -254,9 +311,12 @@ def replay(precond, with_guess):
 
     g = torch.Generator().manual_seed(3)
     fails = []
-    for n, p, batch in ((5, 2, ()), (12, 3, (2,)), (30, 1, ())):
+    for n, p, batch in ((5, 2, ()), (12, 3, (2,)), (30, 1, ()), (24, 2, ())):
         M = torch.randn(*batch, n, n, generator=g, dtype=torch.float64)
         A = M @ M.mT + n * torch.eye(n, dtype=torch.float64)
+        if n == 24:  # ill-conditioned (kappa 1e8): n iterations do not reach a tight tolerance
+            Qm = torch.linalg.qr(M)[0]
+            A = (Qm * torch.logspace(0, 8, n, dtype=torch.float64)) @ Qm.mT
         rhs = torch.randn(*batch, n, p, generator=g, dtype=torch.float64)
         rhs[..., 0] = 0 if p > 1 else rhs[..., 0]
         kw = {}
@@ -265,9 +325,11 @@ def replay(precond, with_guess):
             kw["preconditioner"] = lambda r, Pm=Pm: Pm @ r
         if with_guess:
             kw["initial_guess"] = torch.randn(*batch, n, p, generator=g, dtype=torch.float64)
-        for tol, mi in ((1e-6, 200), (1e-2, 3), (1e-3, 12)):
+        from linear_operator import settings
+
+        for tol, mi, by_size in ((1e-6, 200, False), (1e-2, 3, False), (1e-3, 12, False), (1e-13, 1000, True), (1e-6, 1000, True)):
             A0, r0 = A.clone(), rhs.clone()
-            with warnings.catch_warnings(record=True) as w:
+            with warnings.catch_warnings(record=True) as w, settings.terminate_cg_by_size(by_size):
                 warnings.simplefilter("always")
                 X = linear_cg(A.matmul, rhs, tolerance=tol, max_iter=mi, max_tridiag_iter=0, **kw)
             if not torch.equal(A, A0) or not torch.equal(rhs, r0):
@@ -275,6 +337,10 @@ def replay(precond, with_guess):
             if X.shape != rhs.shape:
                 fails.append(f"n={n} p={p} batch={batch}: shape {tuple(X.shape)}")
                 continue
+            if n != 24 and mi >= 200 and not by_size:  # a generous budget on a well-conditioned system: the iteration must have produced the solution
+                relc = ((rhs - A @ X).norm(dim=-2, keepdim=True) / rhs.norm(dim=-2, keepdim=True).clamp_min(1e-30)).masked_fill(rhs.norm(dim=-2, keepdim=True) < 1e-10, 0)
+                if not bool(relc.max() < 1e-3):  # (far above the accuracy floor of about 1e-5 the property allows)
+                    fails.append(f"n={n} p={p} batch={batch} tol={tol} max_iter={mi}: well-conditioned SPD system, returned X has relative residual {float(relc.max()):.2e}")
             silent = not any(issubclass(x.category, NumericalWarning) for x in w)
             nrm = rhs.norm(dim=-2, keepdim=True)
             rel = ((rhs - A @ X).norm(dim=-2, keepdim=True) / nrm.masked_fill(nrm < 1e-10, 1)).masked_fill(nrm < 1e-10, 0)
